@@ -8,7 +8,10 @@ Theorem C12_check_sound : forall i o, check_C12 i o = true -> C12_holds i o.
 Proof. exact check_C12_sound. Qed.
 Print Assumptions C12_check_sound.
 
-(* MAIN (abstract literals).  lit = SQLAlchemy's literal renderer, parse_lit = SQLite's reading of a literal, untext =
+(* MAIN (abstract literals), for every configuration c = (transactional_ddl, transaction_per_migration): the offline script
+   is the FRAMED one (run_offline_f: BEGIN / COMMIT around the whole run, or around every step and the final DROP of the
+   version table, or none), replayed on an autocommit connection where a nested BEGIN or an unmatched COMMIT is an error
+   (exec_tx); online the same flags decide where the connection commits.  lit = SQLAlchemy's literal renderer, parse_lit = SQLite's reading of a literal, untext =
    what SQLAlchemy's text() does to the text of a literal inside an op.execute string (DefaultImpl._exec wraps a plain
    string in text() in both modes): any functions.  Bulk rows may omit columns (column default / NULL) or give None;
    CreateTable / AddColumn columns may carry a server default, whose literal is part of the DDL.
@@ -19,12 +22,12 @@ Print Assumptions C12_check_sound.
    statement on d has the same observable (tables, columns with defaults / NOT NULL, PRIMARY KEY / UNIQUE sets, rows,
    indexes, version rows) as the online run on d; if one side is stopped by an error so is the other
    (run_online / offline_effect are None then; see C12_abort_same_statement for what is left behind). *)
-Theorem C12_same_effect : forall (lit : value -> text) (parse_lit : text -> value) (untext : text -> text) d start steps,
+Theorem C12_same_effect : forall (lit : value -> text) (parse_lit : text -> value) (untext : text -> text) (c : cfg) d start steps,
   db_at d start -> mid_nonempty start steps = true -> (start = [] -> steps <> []) ->
   (forall v, In v (steps_values steps) -> parse_lit (lit v) = v) ->
   (forall v, In v (steps_values steps) -> no_tab (lit v) = true)        (* no_tab_in_literals: rendered literals *) ->
   (forall w, In w (steps_texts steps) -> no_tab (untext w) = true)      (* no_tab_in_literals: op.execute literals *) ->
-  option_map observable (offline_effect lit parse_lit untext d start steps) = option_map observable (run_online lit parse_lit untext d steps).
+  option_map observable (offline_effect_f lit parse_lit untext c d start steps) = option_map observable (run_online lit parse_lit untext c d steps).
 Proof. exact same_effect. Qed.
 Print Assumptions C12_same_effect.
 
@@ -88,9 +91,10 @@ Print Assumptions C12_text_read.
 (* MAIN, about statement TEXTS: the script is the list of texts exec_post term (str(compiled)) of the constructs alembic
    hands to _exec (literals lit v / untext w, no post-processing yet); it is split into chunks, each read by SQLite and
    executed.  Same hypotheses as C12_same_effect plus the two assumptions on render / sqlite for the constructs of the
-   script. *)
+   script.  (The BEGIN / COMMIT lines are written by static_output, not by _exec: the text-level statement is about the
+   unframed statement stream.) *)
 Theorem C12_same_effect_text : forall (lit : value -> text) (parse_lit : text -> value) (untext : text -> text)
-    (render : sqlstmt -> stext) (sqlite : text -> option sqlstmt) term (supported : sqlstmt -> bool),
+    (render : sqlstmt -> stext) (sqlite : text -> option sqlstmt) term (supported : sqlstmt -> bool) (c : cfg),
   (forall s, supported s = true -> stext_wf (render s) = true) ->
   (forall s g core', supported s = true -> Forall2 (tok_sim g) (st_core (render s)) core' ->
                      sqlite (flat core' ++ term) = Some (map_stmt g s)) ->
@@ -101,24 +105,24 @@ Theorem C12_same_effect_text : forall (lit : value -> text) (parse_lit : text ->
   (forall w, In w (steps_texts steps) -> no_tab (untext w) = true) ->
   (forall l, run_offline_plain lit untext start steps = Some l -> forallb supported l = true) ->
   option_map observable (offline_text_effect lit parse_lit untext render sqlite term d start steps)
-  = option_map observable (run_online lit parse_lit untext d steps).
+  = option_map observable (run_online lit parse_lit untext c d steps).
 Proof. exact same_effect_text. Qed.
 Print Assumptions C12_same_effect_text.
 
 (* the invariant of the induction, for every plan and independent of the literals:
    offline HeadMaintainer.heads = online HeadMaintainer.heads = the rows of the version table *)
-Theorem C12_heads_invariant : forall (lit : value -> text) (parse_lit : text -> value) (untext : text -> text) steps st h s hf st2 h2,
+Theorem C12_heads_invariant : forall (lit : value -> text) (parse_lit : text -> value) (untext : text -> text) (c : cfg) steps st h s hf st2 h2,
   snd (o_cur st) = Some h -> NoDup h ->
-  off_steps lit untext h steps = Some (s, hf) -> on_steps lit parse_lit untext st h steps = (st2, h2, true) ->
+  off_steps lit untext h steps = Some (s, hf) -> on_steps lit parse_lit untext c st h steps = (st2, h2, true) ->
   h2 = hf /\ snd (o_cur st2) = Some hf /\ NoDup hf.
 Proof. exact heads_invariant. Qed.
 Print Assumptions C12_heads_invariant.
 
 (* both commands complete with the same observable, or both are stopped by an error (constraint violation, inapplicable
    statement, failing bookkeeping assertion) *)
-Theorem C12_outcome_sim : forall (lit : value -> text) (parse_lit : text -> value) (untext : text -> text) d start steps,
+Theorem C12_outcome_sim : forall (lit : value -> text) (parse_lit : text -> value) (untext : text -> text) (c : cfg) d start steps,
   class_hyps lit parse_lit untext d start steps ->
-  match offline_outcome lit parse_lit untext d start steps, online_outcome lit parse_lit untext d steps with
+  match offline_outcome lit parse_lit untext c d start steps, online_outcome lit parse_lit untext c d steps with
   | Done a, Done b => observable a = observable b
   | Aborted _, Aborted _ => True
   | _, _ => False
@@ -129,15 +133,20 @@ Print Assumptions C12_outcome_sim.
 (* WHEN A STATEMENT FAILS.  The replay of the script (autocommit, statement by statement) stops iff the online run stops,
    and then after exactly the same statements: the database the replay leaves behind IS the online database before the
    rollback.  What the online run leaves behind is `rolled_back` of that state: the database at the first DML statement
-   of the failing step (sqlite3 driver: DML opens the transaction, DDL before it is permanent, earlier steps are
-   committed).  The two leftovers are therefore NOT equal in general (C12_abort_nonvacuous) and the property does not
+   since the last commit (sqlite3 driver: DML opens the transaction, DDL before it is permanent; the connection commits
+   after every step, or only at the end when transactional_ddl is set without transaction_per_migration).  What the
+   replay leaves behind is `rolled_back` of ITS state: everything before the failing statement, or — inside a
+   BEGIN..COMMIT block of the script — the database at that BEGIN.  In particular the script's BEGIN / COMMIT never fail
+   (they are properly nested for every configuration: run_offline_f_core in the proofs).  The two leftovers are therefore NOT equal in general (C12_abort_nonvacuous) and the property does not
    claim they are. *)
-Theorem C12_abort_same_statement : forall (lit : value -> text) (parse_lit : text -> value) (untext : text -> text) d start steps script,
+Theorem C12_abort_same_statement : forall (lit : value -> text) (parse_lit : text -> value) (untext : text -> text) (c : cfg) d start steps script,
   class_hyps lit parse_lit untext d start steps ->
-  run_offline lit untext start steps = Some script ->
-  let '(p, ok1) := replay_run parse_lit d script in
-  let '(st, _, ok2) := run_online_tx lit parse_lit untext d steps in
-  ok1 = ok2 /\ (ok1 = false -> p = o_cur st /\ online_outcome lit parse_lit untext d steps = Aborted (rolled_back st)).
+  run_offline_f lit untext c start steps = Some script ->
+  let '(sto, ok1) := replay_tx parse_lit d script in
+  let '(st, _, ok2) := run_online_tx lit parse_lit untext c d steps in
+  ok1 = ok2 /\ (ok1 = false -> o_cur sto = o_cur st /\
+                             offline_outcome lit parse_lit untext c d start steps = Aborted (rolled_back sto) /\
+                             online_outcome lit parse_lit untext c d steps = Aborted (rolled_back st)).
 Proof. exact abort_same_statement. Qed.
 Print Assumptions C12_abort_same_statement.
 
@@ -167,7 +176,7 @@ Example C12_text_nonvacuous :
   (forall s, supported_c s = true -> stext_wf (render_c s) = true) /\
   (forall s g core', supported_c s = true -> Forall2 (tok_sim g) (st_core (render_c s)) core' ->
                      sqlite_c (flat core' ++ [59]) = Some (map_stmt g s)) /\
-  inclass_C12 (mkIn toy_db [] toy_steps []) = true /\
+  inclass_C12 (mkIn toy_db [] toy_steps [] (mkCfg None false)) = true /\
   (forall l, run_offline_plain lit_c untext_c [] toy_steps = Some l -> forallb supported_c l = true) /\
   exists d, offline_text_effect lit_c parse_c untext_c render_c sqlite_c [59] toy_db [] toy_steps = Some d /\
             ob_vers (observable d) = [5] /\ map (fun t => length (t_rows t)) (ob_tabs (observable d)) = [1%nat].
